@@ -28,6 +28,28 @@ const (
 
 type node struct{ key string }
 
+// gnode is what the application's ResolveNodesByGlobalIds returns for the built-in `node` / `nodes`
+// root fields (config.go).
+type gnode struct{ id string }
+
+// resolveNodesByGlobalIds knows the ids N0..N9; it leaves unknown ids out and returns the nodes in
+// descending id order — never in the order asked for unless that happens to be descending (the
+// order is documented as arbitrary).
+func resolveNodesByGlobalIds(ctx context.Context, ids []string) ([]interface{}, error) {
+	var found []string
+	for _, id := range ids {
+		if len(id) == 2 && id[0] == 'N' && id[1] >= '0' && id[1] <= '9' {
+			found = append(found, id)
+		}
+	}
+	sort.Sort(sort.Reverse(sort.StringSlice(found)))
+	out := make([]interface{}, len(found))
+	for i, id := range found {
+		out[i] = &gnode{id: id}
+	}
+	return out, nil
+}
+
 type edgeVal struct {
 	key string
 	idx int
@@ -415,6 +437,10 @@ func parentKey(obj interface{}) string {
 		}
 	case edgeVal:
 		return o.key
+	case *gnode:
+		if o != nil {
+			return "/node:" + o.id
+		}
 	}
 	return ""
 }
@@ -1027,7 +1053,22 @@ func buildAPI() *apifu.API {
 		"tu": mkTime("tu", "TU", true),        // time-based + ResolveTotalCount
 	}
 	obj.Fields = fields
-	cfg := &apifu.Config{}
+	cfg := &apifu.Config{ResolveNodesByGlobalIds: resolveNodesByGlobalIds}
+	cfg.AddNamedType(&graphql.ObjectType{
+		Name: "GNode",
+		Fields: map[string]*graphql.FieldDefinition{
+			"id": {Type: graphql.NewNonNullType(graphql.IDType), Resolve: func(ctx graphql.FieldContext) (interface{}, error) {
+				return ctx.Object.(*gnode).id, nil
+			}},
+			"v": {Type: graphql.IntType, Resolve: func(ctx graphql.FieldContext) (interface{}, error) {
+				return int(mix(7, ctx.Object.(*gnode).id) % 1000), nil
+			}},
+			"i": fields["i"],
+			"o": fields["o"],
+		},
+		ImplementedInterfaces: []*graphql.InterfaceType{cfg.NodeInterface()},
+		IsTypeOf:              func(v interface{}) bool { _, ok := v.(*gnode); return ok },
+	})
 	for name, def := range fields {
 		cfg.AddQueryField(name, def)
 	}
